@@ -199,17 +199,19 @@ Section Cover.
                 exists m, In m G /\ ti_gouts ti <> [] /\ incl (map go_path (ti_gouts ti)) (s_outs m) /\ avail G m r;
     eo_dep : forall f rs, In (f, rs) (ti_dep ti ++ ti_linkrec ti) ->
                 exists m, In m G /\ In f (s_outs m) /\ forall o, In o rs -> avail G m o;
-    eo_hdr : forall h, In h (ti_genhdrs ti) -> exists m, In m G /\ In h (s_outs m) }.
+    eo_hdr : forall h, In h (ti_genhdrs ti) -> exists m, In m G /\ In h (s_outs m);
+    eo_objs : forall o, In o (ti_allobjs ti) -> exists m, In m G /\ In o (s_outs m) }.
 
   Lemma entry_ok_mono G G' ti : incl G G' -> entry_ok G ti -> entry_ok G' ti.
   Proof.
-    intros H [A B C D]. constructor.
+    intros H [A B C D E]. constructor.
     - intros o Ho. destruct (A o Ho) as (m & Hm & Hom). exists m. auto.
     - intros r Hr. destruct (B r Hr) as [S|(m & Hm & Hne & Hi & Ha)]; [left; exact S|].
       right. exists m. split; [apply H; exact Hm|]. split; [exact Hne|]. split; [exact Hi | eapply avail_mono; eassumption].
     - intros f rs Hfo. destruct (C f rs Hfo) as (m & Hm & Hf & Ha). exists m.
       split; [apply H; exact Hm|]. split; [exact Hf | intros o Ho; eapply avail_mono; [exact H | apply Ha; exact Ho]].
     - intros h Hh. destruct (D h Hh) as (m & Hm & Hhm). exists m. auto.
+    - intros o Ho. destruct (E o Ho) as (m & Hm & Hom). exists m. auto.
   Qed.
 
   Lemma entry_ok_empty G : entry_ok G empty_info.
@@ -316,6 +318,7 @@ Section Cover.
       split; [exact Hs|]. split; [exact Hne|]. split; [apply incl_refl|]. right. eapply cov_mono; eassumption.
     - intros f o [].
     - intros h [].
+    - intros o [].
   Qed.
 
   (* ---------------------------------------------------------------- *)
@@ -555,18 +558,32 @@ Section Cover.
       - eapply avail_mono; [apply G_G2 | apply Ha; exact Hr].
     Qed.
 
-    Lemma object_ucov c :
-      In c (cunits tbl b) ->
-      exists m, In m G2 /\ (exists q, In q (s_outs m) /\ In q (u_all (link_unit tbl b))) /\ avail G2 m (cu_obj c).
+    (* every object handed to the link or archive step exists in G2: compiled for this target,
+       or extracted from an earlier target *)
+    Lemma link_objs_produced o : In o (link_objs tbl b) -> exists m, In m G2 /\ In o (s_outs m).
     Proof.
-      intro Hc. destruct (object_made c Hc) as (s & Hs & Ho). exists s. split; [exact Hs|]. split; [|left; exact Ho].
-      exists (cu_obj c). split; [exact Ho|]. unfold u_all. simpl. apply in_or_app. left. apply in_map. exact Hc.
+      unfold link_objs. intro H. apply in_app_or in H. destruct H as [H|H].
+      - apply in_map_iff in H. destruct H as (c & <- & Hc). apply object_made. exact Hc.
+      - assert (Hold : exists t, In o (allobjs_of tbl t)).
+        { unfold bundled_objs in H. apply in_app_or in H. destruct H as [H|H].
+          - destruct (is_static b); [|contradiction]. apply in_flat_map in H. destruct H as (t & _ & H). exists t. exact H.
+          - apply in_flat_map in H. destruct H as (t & _ & H). exists t. exact H. }
+        destruct Hold as (t & Hobj). destruct (eo_objs _ _ (look_ok G tbl t Ht) o Hobj) as (m & Hm & Hom).
+        exists m. split; [apply G_G2; exact Hm | exact Hom].
+    Qed.
+
+    Lemma object_ucov o :
+      In o (link_objs tbl b) ->
+      exists m, In m G2 /\ (exists q, In q (s_outs m) /\ In q (u_all (link_unit tbl b))) /\ avail G2 m o.
+    Proof.
+      intro Ho. destruct (link_objs_produced o Ho) as (s & Hs & Hos). exists s. split; [exact Hs|]. split; [|left; exact Hos].
+      exists o. split; [exact Hos|]. unfold u_all. simpl. apply in_or_app. left. exact Ho.
     Qed.
 
     Lemma link_ucov : ucov G2 (link_unit tbl b).
     Proof.
       intros r Hr. simpl in Hr. unfold link_reads in Hr. apply in_app_or in Hr. destruct Hr as [Hr|Hr].
-      - apply in_map_iff in Hr. destruct Hr as (c & <- & Hc). right. apply object_ucov. exact Hc.
+      - right. apply object_ucov. exact Hr.
       - right. apply link_uses_ucov. exact Hr.
     Qed.
 
@@ -575,12 +592,11 @@ Section Cover.
 
     (* after the link step: the target file, its objects, and what the link could open *)
     Lemma after_link r :
-      r = bt_out b \/ In r (map cu_obj (cunits tbl b)) \/ In r (link_uses tbl b) -> avail G3 sl r.
+      r = bt_out b \/ In r (link_objs tbl b) \/ In r (link_uses tbl b) -> avail G3 sl r.
     Proof.
       intros [->|[H|H]].
       - left. left. reflexivity.
-      - right. apply in_map_iff in H. destruct H as (c & <- & Hc).
-        destruct (object_ucov c Hc) as (m & Hm & Hq & Ha).
+      - right. destruct (object_ucov r H) as (m & Hm & Hq & Ha).
         eapply cov_mono; [apply G2_G3|]. eapply consumer; eassumption.
       - right. destruct (link_uses_ucov r H) as (m & Hm & Hq & Ha).
         eapply cov_mono; [apply G2_G3|]. eapply consumer; eassumption.
@@ -652,6 +668,8 @@ Section Cover.
           split; [exact Hfm | intros o Ho; eapply avail_mono; [apply G_G4 | apply Ha; exact Ho]].
       - intros h Hh. destruct (is_lib b); [|contradiction].
         apply generated_headers_produced; [|exact Hh]. intros x Hx. apply G3_G4. apply G2_G3. apply G1_G2. exact Hx.
+      - intros o Ho. destruct (link_objs_produced o Ho) as (m & Hm & Hom). exists m.
+        split; [apply G3_G4; apply G2_G3; exact Hm | exact Hom].
     Qed.
 
     Lemma build_units_close : close_from G (build_units tbl b) = G4.
@@ -768,8 +786,8 @@ Qed.
    10 gen.h, 11 lib.c.o, 12 libl.a, 13 main.c.o, 14 e (15, 16: unused symbol-file names). *)
 Definition boundary_project : project :=
   [ DCustom (mkCT [mkGout 10 KHeader] [] [AProg (Some 1)] [] []);
-    DBuild (mkBT StaticLib 12 15 [BFile 2 11; BCustom 0%nat []] [] [] []);
-    DBuild (mkBT Exe 14 16 [BFile 3 13] [1%nat] [] []) ].
+    DBuild (mkBT StaticLib 12 15 [BFile 2 11; BCustom 0%nat []] [] [] [] []);
+    DBuild (mkBT Exe 14 16 [BFile 3 13] [1%nat] [] [] []) ].
 
 Example boundary_project_valid : valid_project boundary_project = true /\ in_fragment boundary_project = true.
 Proof. vm_compute. split; reflexivity. Qed.
